@@ -9,6 +9,7 @@ LocksNone  == {LAbsent}
 LocksAbsentOrCorrupt == {LAbsent, LCorrupt}
 RefsBoundary == {0, 1, MaxId - 1, MaxId}
 RefsLow == {1, 2}
+RefsTwo == {1, MaxId}
 LocksAbsentOr3 == {LAbsent, 3}
 
 (* every pre-state (initial state) of a configuration, printed once: the replay input of C01/C16 *)
